@@ -18,6 +18,7 @@ func init() {
 }
 
 func runC08(c *Ctx) {
+	c08Sponge(c)
 	// --- delegation table
 	for _, n := range []string{"224", "256", "384", "512"} {
 		for _, pre := range []string{"New", "Sum"} {
